@@ -23,6 +23,7 @@ import (
 	"reflect"
 	"strings"
 	"sync"
+	"time"
 )
 
 // Relaxed if true relaxes coercion rules so that JSON types can be converted
@@ -598,6 +599,31 @@ func (root *Root) validate() error {
 	return nil
 }
 
+// isSchemaValue returns true if the value is one that can be written as SDL:
+// null, a scalar, symbol, variable, time, list or object of those. A value
+// coerced into a Go type an input type is bound to is not.
+func isSchemaValue(v interface{}) bool {
+	switch tv := v.(type) {
+	case nil, string, bool, int, int8, int16, int32, int64, uint, uint8, uint16, uint32, uint64, float32, float64, Symbol, Var, time.Time:
+		return true
+	case []interface{}:
+		for _, m := range tv {
+			if !isSchemaValue(m) {
+				return false
+			}
+		}
+		return true
+	case map[string]interface{}:
+		for _, m := range tv {
+			if !isSchemaValue(m) {
+				return false
+			}
+		}
+		return true
+	}
+	return false
+}
+
 // keepCoerced calls set, which puts a coerced value in place of the value as
 // written, right away or while the schema is validated once it is known that
 // the schema is valid.
@@ -695,8 +721,11 @@ func (root *Root) validateDirUse(where string, loc Location, du *DirectiveUse) (
 					// really what is needed. Do not compare the values
 					// first, list and object values are not comparable and
 					// would panic.
-					av, v := av, v
-					root.keepCoerced(func() { av.Value = v })
+					// (see Directive.Validate about values of Go types)
+					if isSchemaValue(v) {
+						av, v := av, v
+						root.keepCoerced(func() { av.Value = v })
+					}
 				}
 			}
 		}
